@@ -238,6 +238,12 @@ func runC01(ctx *harness.Ctx) {
 		e := es[rapid.IntRange(0, len(es)-1).Draw(t, "entry")]
 		c01One(ctx, t, "generated", e, c.Text)
 	})
+	ctx.Rapid("generated-relaxed", ctx.Pick(6000, 120000), func(t *rapid.T) {
+		c := drawGenRelaxed(t, "", drawDepth(t))
+		es := entriesForKind(c.S.Kind)
+		e := es[rapid.IntRange(0, len(es)-1).Draw(t, "entry")]
+		c01One(ctx, t, "generated-relaxed", e, c.Text)
+	})
 	ctx.Rapid("generated-list", ctx.Pick(1500, 30000), func(t *rapid.T) {
 		kind := rapid.SampledFrom([]string{"query", "ddl", "dml"}).Draw(t, "kind")
 		n := rapid.IntRange(2, 3).Draw(t, "n")
